@@ -107,7 +107,7 @@ class PPIfHarness(Harness):
                 hi = min(hi, MUL_RIGHT_MAX)
             vals[i] = mk.int(f"L{i}", 0, hi)
         lv = [vals[i] for i in sorted(vals)]
-        E = csem.Eval(DM, lv)
+        E = csem.Eval(DM, lv, mk.assume if self.mode == "c26" else None)
         v, t = E.ev(self.expr)
         inp = dict(lits=lv, truth=csem._truth(v), defined=E.defined)
         for k, f in E.flags.items():
@@ -220,9 +220,9 @@ def quick_templates():
         T.append(("if", ["eq", e, lit(n, "")]))
         if not heavy:
             # further observers (negative / unsigned comparands, orderings) on rotating subsets
-            if k % 2 == 0:
-                T.append(("if", ["eq", e, ["neg", lit(n, "")]]))
             if k % 4 == 0:
+                T.append(("if", ["eq", e, ["neg", lit(n, "")]]))
+            if k % 8 == 0:
                 T += [("if", ["eq", e, lit(n, "u")]), ("if", ["lt", e, lit(n, "")]), ("if", ["lt", lit(n, "u"), e])]
         if k % 8 == 0:
             T.append(("elif", e))
@@ -232,11 +232,14 @@ def quick_templates():
         T.append(("elif", lit(0, s)))
     # operator precedence / associativity of the real parse_expression: depth-2 shapes printed with only the
     # parentheses C needs, observed through == L
+    rnd = random.Random(26)
     for e in precedence_shapes():
         if "cast" in csem.operators(e):
             continue                      # no casts in #if
         n = len(csem.literals(e))
-        T.append(("if", ["eq", e, lit(n, "")], "min"))
+        sp = ("if", ["eq", e, lit(n, "")], "min")
+        if has_defined_point(PPIfHarness(*sp), rnd):
+            T.append(sp)
     return T
 
 
